@@ -29,9 +29,9 @@ type Prog struct {
 	// source lies in the analysed tree, sorted by position.
 	Funcs []*ssa.Function
 
-	callers map[*ssa.Function][]ssa.CallInstruction // static call sites per callee
-	closure map[*ssa.Function][]*ssa.MakeClosure     // MakeClosure sites per anonymous function
-	allFns  map[*ssa.Function]bool
+	callers  map[*ssa.Function][]ssa.CallInstruction // static call sites per callee
+	closure  map[*ssa.Function][]*ssa.MakeClosure    // MakeClosure sites per anonymous function
+	allFns   map[*ssa.Function]bool
 	acc      *accessIndex
 	progWide map[*ssa.Function]bool
 	locks    *lockInfo
@@ -41,6 +41,7 @@ type Prog struct {
 	roots            map[*ssa.Function]bool // activity roots (connection loop, frame executor, dispatcher, client call)
 	rootsAreExits    bool
 	loopRoots        map[*ssa.Function]bool
+	boundary         map[ssa.Instruction]bool // in the event loops: the instruction that takes the next event
 }
 
 func allFunctions(prog *ssa.Program) map[*ssa.Function]bool { return ssautil.AllFunctions(prog) }
